@@ -67,7 +67,7 @@ func fuzzyHashes() []string {
 		topology.GenerateFuzzyHash(poolTopos[0]) + "2"}
 }
 
-var poolEntropy = []float64{4.0, 0, 3.9999, 4.00004, 4.5, 8.0, 4.3, 5.0}
+var poolEntropy = []float64{4.0, 0, 3.9999, 4.00004, 4.5, 8.0, 4.3, 5.0, 4.00006} // 4.00004 and 4.00006 differ by less than the index resolution but round to different index keys
 var poolTol = []float64{0, 0.1, 0.5, 0.0001}
 var poolThreshold = []float64{0.75, 0.3, 0.95, 1.0, 0.5}
 var poolScannerTol = []float64{0.5, 0.05, 1.0, 0.3}
